@@ -23,3 +23,225 @@ package keeper
 //@   ensures stored:    err == nil ==> has(prm) && get(prm) == msg.Params && types.assetsOK(msg.Params.AssetParams)
 //@   ensures rejected:  err != nil ==> prm == old(prm)
 //@ end
+
+// ---------------------------------------------------------------------------------------------
+// Store families and ledger helpers
+
+//@ family htlcs    key types.GetHTLCKey value types.HTLC slice 1:=0 prefix global:types.HTLCKey
+//@ family queue    key types.GetHTLCExpiredQueueKey value unit slice 9:=1 prefix types.GetHTLCExpiredQueueSubspace
+//@ family supplies key types.GetAssetSupplyKey value types.AssetSupply prefix global:types.AssetSupplyPrefix
+
+//@ define MOD = macc("htlc")
+//@ define OPEN = 0
+//@ define COMPLETED = 1
+//@ define REFUNDED = 2
+//@ define INCOMING = 1
+//@ define OUTGOING = 2
+// escrow pays `c` to `a` / `a` pays `c` into escrow
+//@ define payOut(b, a, c) = creditcoins(debitcoins(b, MOD, c), a, c)
+//@ define payIn(b, a, c) = creditcoins(debitcoins(b, a, c), MOD, c)
+//@ define closed(h, st, blk) = with(with(h, "State", st), "ClosedBlock", blk)
+
+// ---------------------------------------------------------------------------------------------
+// C03: locked funds leave escrow exactly once
+
+// Ordinary (non cross-chain) contracts and the common bookkeeping.
+//@ func Keeper.CreateHTLC
+//@   property C03
+//@   returns id, err
+//@   requires height >= 0 && timeLock <= 34560
+//@   modifies bal, supply, htlcs, queue, supplies
+//@   ensures id_of:  id == types.GetID(sender, to, amount, hashLock)
+//@   ensures duplicate_rejected: old(has(htlcs, id)) ==> err != nil
+//@   ensures opened: err == nil ==> !old(has(htlcs, id)) && has(htlcs, id) && get(htlcs, id).State == OPEN
+//@                   && get(htlcs, id).ExpirationHeight == height + timeLock && get(htlcs, id).Amount == amount
+//@                   && get(htlcs, id).Sender == bech(sender) && get(htlcs, id).To == bech(to) && get(htlcs, id).Transfer == transfer
+//@                   && get(htlcs, id).Timestamp == timestamp && get(htlcs, id).HashLock == ufstr("hex_upper", hashLock)
+//@                   && htlcs == set(old(htlcs), id, get(htlcs, id))
+//@   ensures queued: err == nil ==> queue == set(old(queue), height + timeLock, id, true)
+//@   ensures escrowed: err == nil && !transfer ==> bal == payIn(old(bal), sender, amount) && supply == old(supply) && supplies == old(supplies)
+//@ end
+
+//@ func Keeper.ClaimHTLC
+//@   property C03
+//@   returns hashLock, transfer, dir, err
+//@   let h = get(htlcs, id)
+//@   requires height >= 0
+//@   modifies bal, supply, htlcs, queue, supplies
+//@   ensures only_open: err == nil ==> old(has(htlcs, id)) && h.State == OPEN
+//@   ensures preimage:  err == nil ==> types.GetHashLock(secret, h.Timestamp) == unhex(h.HashLock)
+//@   ensures wrong_secret_rejected: types.GetHashLock(secret, h.Timestamp) != unhex(h.HashLock) ==> err != nil
+//@   ensures not_open_rejected: !old(has(htlcs, id)) || h.State != OPEN ==> err != nil
+//@   ensures completed: err == nil ==> htlcs == set(old(htlcs), id, closed(with(h, "Secret", ufstr("hex_upper", secret)), COMPLETED, height))
+//@   ensures dequeued:  err == nil ==> queue == del(old(queue), h.ExpirationHeight, id)
+//@   ensures paid:      err == nil && !h.Transfer ==> bal == payOut(old(bal), addr(h.To), h.Amount) && supply == old(supply) && supplies == old(supplies)
+//@ end
+
+// RefundHTLC does not check the state itself: its caller (BeginBlocker) hands it a record taken from the expiry queue.
+//@ func Keeper.RefundHTLC
+//@   property C03
+//@   returns err
+//@   requires height >= 0
+//@   modifies bal, supply, htlcs, supplies
+//@   ensures refunded: err == nil ==> htlcs == set(old(htlcs), id, closed(h, REFUNDED, height))
+//@   ensures paid_back: err == nil && !h.Transfer ==> bal == payOut(old(bal), addr(h.Sender), h.Amount) && supply == old(supply) && supplies == old(supplies)
+//@ end
+
+// ---------------------------------------------------------------------------------------------
+// Asset parameters and cross-chain supply counters (C04)
+
+//@ define ASSETS = ite(has(prm), get(prm).AssetParams, zero(get(prm).AssetParams))
+// "the asset parameters of denom d" = the first entry with that denom (definitional axiom for first_idx)
+//@ axiom firstIdx(s, d, j)
+//@   requires 0 <= j && j < len(s) && s[j].Denom == d && (forall i:Int :: 0 <= i && i < j ==> s[i].Denom != d)
+//@   ensures uf("first_idx", s, d) == j
+//@ define ASSET(d) = ASSETS[uf("first_idx", ASSETS, d)]
+//@ define SUP(d) = get(supplies, d)
+//@ define supWF(d) = has(supplies, d) ==> SUP(d).IncomingSupply.Denom == d && SUP(d).OutgoingSupply.Denom == d
+//@      && SUP(d).CurrentSupply.Denom == d && SUP(d).TimeLimitedCurrentSupply.Denom == d
+//@      && SUP(d).IncomingSupply.Amount >= 0 && SUP(d).OutgoingSupply.Amount >= 0 && SUP(d).CurrentSupply.Amount >= 0
+//@      && SUP(d).TimeLimitedCurrentSupply.Amount >= 0
+//@ define addTo(c, x) = coin(c.Denom, c.Amount + x)
+
+//@ func Keeper.GetAsset
+//@   property C03, C04
+//@   returns asset, err
+//@   invariant #1 idx:  rangeindex >= 0 - 1 && rangeindex < len(ASSETS)
+//@   invariant #1 none: forall j:Int :: 0 <= j && j <= rangeindex ==> ASSETS[j].Denom != denom
+//@   lemma @return firstIdx(ASSETS, denom, rangeindex + 1) if err == nil
+//@   ensures found: err == nil ==> asset == ASSET(denom) && asset.Denom == denom
+//@   ensures valid: err == nil && types.assetsOK(ASSETS) ==> types.assetOK(asset)
+//@   ensures unsupported: err != nil ==> (forall j:Int :: 0 <= j && j < len(ASSETS) ==> ASSETS[j].Denom != denom)
+//@ end
+
+//@ func Keeper.IncrementIncomingAssetSupply
+//@   property C04
+//@   returns err
+//@   requires supWF(coin.Denom) && coin.Amount >= 0
+//@   let r = SUP(coin.Denom)
+//@   modifies supplies
+//@   ensures counted: err == nil ==> has(supplies, coin.Denom) && supplies == set(old(supplies), coin.Denom, with(r, "IncomingSupply", addTo(r.IncomingSupply, coin.Amount)))
+//@   ensures limit:   err == nil ==> r.CurrentSupply.Amount + r.IncomingSupply.Amount + coin.Amount <= ASSET(coin.Denom).SupplyLimit.Limit
+//@   ensures time_limit: err == nil && ASSET(coin.Denom).SupplyLimit.TimeLimited ==>
+//@                    r.TimeLimitedCurrentSupply.Amount + r.IncomingSupply.Amount + coin.Amount <= ASSET(coin.Denom).SupplyLimit.TimeBasedLimit
+//@   ensures keeps_wf: err == nil ==> supWF(coin.Denom)
+//@ end
+
+//@ func Keeper.DecrementIncomingAssetSupply
+//@   property C04
+//@   returns err
+//@   requires supWF(coin.Denom) && coin.Amount >= 0
+//@   let r = SUP(coin.Denom)
+//@   modifies supplies
+//@   ensures counted: err == nil ==> has(supplies, coin.Denom) && r.IncomingSupply.Amount >= coin.Amount
+//@                    && supplies == set(old(supplies), coin.Denom, with(r, "IncomingSupply", addTo(r.IncomingSupply, 0 - coin.Amount)))
+//@   ensures keeps_wf: err == nil ==> supWF(coin.Denom)
+//@ end
+
+//@ func Keeper.IncrementOutgoingAssetSupply
+//@   property C04
+//@   returns err
+//@   requires supWF(coin.Denom) && coin.Amount >= 0
+//@   let r = SUP(coin.Denom)
+//@   modifies supplies
+//@   ensures counted: err == nil ==> has(supplies, coin.Denom) && supplies == set(old(supplies), coin.Denom, with(r, "OutgoingSupply", addTo(r.OutgoingSupply, coin.Amount)))
+//@   ensures available: err == nil ==> r.OutgoingSupply.Amount + coin.Amount <= r.CurrentSupply.Amount
+//@   ensures keeps_wf: err == nil ==> supWF(coin.Denom)
+//@ end
+
+//@ func Keeper.DecrementOutgoingAssetSupply
+//@   property C04
+//@   returns err
+//@   requires supWF(coin.Denom) && coin.Amount >= 0
+//@   let r = SUP(coin.Denom)
+//@   modifies supplies
+//@   ensures counted: err == nil ==> has(supplies, coin.Denom) && r.OutgoingSupply.Amount >= coin.Amount
+//@                    && supplies == set(old(supplies), coin.Denom, with(r, "OutgoingSupply", addTo(r.OutgoingSupply, 0 - coin.Amount)))
+//@   ensures keeps_wf: err == nil ==> supWF(coin.Denom)
+//@ end
+
+//@ func Keeper.IncrementCurrentAssetSupply
+//@   property C04
+//@   returns err
+//@   requires supWF(coin.Denom) && coin.Amount >= 0
+//@   let r = SUP(coin.Denom)
+//@   let tl = ASSET(coin.Denom).SupplyLimit.TimeLimited
+//@   modifies supplies
+//@   ensures counted: err == nil ==> has(supplies, coin.Denom) && supplies == set(old(supplies), coin.Denom,
+//@                    with(with(r, "CurrentSupply", addTo(r.CurrentSupply, coin.Amount)), "TimeLimitedCurrentSupply", addTo(r.TimeLimitedCurrentSupply, ite(tl, coin.Amount, 0))))
+//@   ensures limit:   err == nil ==> r.CurrentSupply.Amount + coin.Amount <= ASSET(coin.Denom).SupplyLimit.Limit
+//@   ensures time_limit: err == nil && tl ==> r.TimeLimitedCurrentSupply.Amount + coin.Amount <= ASSET(coin.Denom).SupplyLimit.TimeBasedLimit
+//@   ensures keeps_wf: err == nil ==> supWF(coin.Denom)
+//@ end
+
+//@ func Keeper.DecrementCurrentAssetSupply
+//@   property C04
+//@   returns err
+//@   requires supWF(coin.Denom) && coin.Amount >= 0
+//@   let r = SUP(coin.Denom)
+//@   modifies supplies
+//@   ensures counted: err == nil ==> has(supplies, coin.Denom) && r.CurrentSupply.Amount >= coin.Amount
+//@                    && supplies == set(old(supplies), coin.Denom, with(r, "CurrentSupply", addTo(r.CurrentSupply, 0 - coin.Amount)))
+//@   ensures keeps_wf: err == nil ==> supWF(coin.Denom)
+//@ end
+
+// ---------------------------------------------------------------------------------------------
+// Cross-chain transfers (HTLT): the three legs move funds and counters together
+
+//@ define allSupWF = forall d:Str :: supWF(d)
+//@ define paramsValid = has(prm) ==> types.assetsOK(get(prm).AssetParams)
+//@ define C0(c) = coinat(c, 0)
+//@ define bump(r, f, x) = with(r, f, addTo(ite(f == "IncomingSupply", r.IncomingSupply, ite(f == "OutgoingSupply", r.OutgoingSupply, r.CurrentSupply)), x))
+
+//@ func Keeper.createHTLT
+//@   property C03, C04
+//@   returns dir, err
+//@   requires allSupWF && paramsValid
+//@   let c0 = C0(amount)
+//@   let r = SUP(c0.Denom)
+//@   modifies bal, supplies
+//@   ensures one_coin:  err == nil ==> len(amount) == 1 && amount == addcoin(nocoins(), c0.Denom, c0.Amount) && (dir == INCOMING || dir == OUTGOING)
+//@   ensures incoming:  err == nil && dir == INCOMING ==> bal == old(bal)
+//@                      && supplies == set(old(supplies), c0.Denom, with(r, "IncomingSupply", addTo(r.IncomingSupply, c0.Amount)))
+//@                      && r.CurrentSupply.Amount + r.IncomingSupply.Amount + c0.Amount <= ASSET(c0.Denom).SupplyLimit.Limit
+//@   ensures outgoing:  err == nil && dir == OUTGOING ==> bal == payIn(old(bal), sender, amount)
+//@                      && supplies == set(old(supplies), c0.Denom, with(r, "OutgoingSupply", addTo(r.OutgoingSupply, c0.Amount)))
+//@   ensures keeps_wf:  err == nil ==> allSupWF
+//@ end
+
+//@ func Keeper.claimHTLT
+//@   property C03, C04
+//@   returns err
+//@   requires allSupWF
+//@   requires len(htlc.Amount) == 1 && bechok(htlc.To)
+//@   let c0 = C0(htlc.Amount)
+//@   let r = SUP(c0.Denom)
+//@   let tl = ASSET(c0.Denom).SupplyLimit.TimeLimited
+//@   modifies bal, supply, supplies
+//@   ensures direction: err == nil ==> htlc.Direction == INCOMING || htlc.Direction == OUTGOING
+//@   ensures incoming:  err == nil && htlc.Direction == INCOMING ==>
+//@                      supply == addcoins(old(supply), htlc.Amount) && bal == creditcoins(debitcoins(creditcoins(old(bal), MOD, htlc.Amount), MOD, htlc.Amount), addr(htlc.To), htlc.Amount)
+//@                      && supplies == set(old(supplies), c0.Denom, with(with(with(r, "IncomingSupply", addTo(r.IncomingSupply, 0 - c0.Amount)),
+//@                             "CurrentSupply", addTo(r.CurrentSupply, c0.Amount)), "TimeLimitedCurrentSupply", addTo(r.TimeLimitedCurrentSupply, ite(tl, c0.Amount, 0))))
+//@                      && r.CurrentSupply.Amount + c0.Amount <= ASSET(c0.Denom).SupplyLimit.Limit
+//@   ensures outgoing:  err == nil && htlc.Direction == OUTGOING ==>
+//@                      supply == subcoins(old(supply), htlc.Amount) && bal == debitcoins(old(bal), MOD, htlc.Amount)
+//@                      && supplies == set(old(supplies), c0.Denom, with(with(r, "OutgoingSupply", addTo(r.OutgoingSupply, 0 - c0.Amount)), "CurrentSupply", addTo(r.CurrentSupply, 0 - c0.Amount)))
+//@   ensures keeps_wf:  err == nil ==> allSupWF
+//@ end
+
+//@ func Keeper.refundHTLT
+//@   property C03, C04
+//@   returns err
+//@   requires allSupWF
+//@   requires len(amount) == 1
+//@   let c0 = C0(amount)
+//@   let r = SUP(c0.Denom)
+//@   modifies bal, supplies
+//@   ensures direction: err == nil ==> direction == INCOMING || direction == OUTGOING
+//@   ensures incoming:  err == nil && direction == INCOMING ==> bal == old(bal)
+//@                      && supplies == set(old(supplies), c0.Denom, with(r, "IncomingSupply", addTo(r.IncomingSupply, 0 - c0.Amount)))
+//@   ensures outgoing:  err == nil && direction == OUTGOING ==> bal == payOut(old(bal), sender, amount)
+//@                      && supplies == set(old(supplies), c0.Denom, with(r, "OutgoingSupply", addTo(r.OutgoingSupply, 0 - c0.Amount)))
+//@   ensures keeps_wf:  err == nil ==> allSupWF
+//@ end
